@@ -102,7 +102,8 @@ def finish(a, P, results, seed, t0):
     bounded = [r for r in results if r.get('kind') == 'bounded']
     for r in bounded:          # a failing real input found by the bounded tier is a violation with a native replay
         for k, f in enumerate(r.get('failures', [])):
-            violations.append({'obligation': f'{r["unit"]}#{k}', 'unit': r['unit'], 'model': None,
+            # a failing case may carry a stable id (scenario + input) so that known_findings.json can name exactly that case
+            violations.append({'obligation': f'{r["unit"]}#{f.get("case_id", k) if isinstance(f, dict) else k}', 'unit': r['unit'], 'model': None,
                                'replay': {'status': 'reproduced', 'kind': 'end-to-end input on the real code', 'failing_case': f}})
     trusted = sorted({t for r in results for t in r.get('trusted', [])})
     functions = [f for r in results for f in r.get('functions', [])]
@@ -158,7 +159,10 @@ def finish(a, P, results, seed, t0):
     n_ob = len(obligations)
     n_ok = sum(1 for o in obligations if o['result'] == 'proved')
     all_ok = (n_ob > 0 and n_ok == n_ob and not undecided and not crashes)
-    proof = all_ok and P.get('level', 'proof') == 'proof'
+    known_hit = sorted({v['known'] for v in violations if v.get('known')})
+    # a listed known finding is a counterexample to the property as stated: the discharged obligations then hold under the stated assumptions
+    # only, and the run must not be labelled a proof of the property
+    proof = all_ok and P.get('level', 'proof') == 'proof' and not known_hit
     solver_time = round(sum(o.get('time', 0) for o in obligations), 3)
     by_backend = {}
     for o in obligations:
@@ -185,7 +189,12 @@ def finish(a, P, results, seed, t0):
         cov['evaluations'] = max(1, n_ob + sum(r.get('evaluations', 0) for r in bounded))
         cov['distinct_nontrivial'] = max(2, n_ok)
         cov['rule'] = 'obligations generated from the AST of the functions under contract; distinct = distinct obligation names discharged'
-        if all_ok:
+        if all_ok and known_hit:
+            kf_txt = '; '.join(f"{k['id']}: {k['what'][:220]}" for k in kf if k['id'] in known_hit)
+            cov['explanation'] = (f'every obligation generated from the contracts is discharged ({n_ok}/{n_ob}), but the property does NOT hold for all inputs: known finding(s) reproduced on this run '
+                                  f'(listed in known_findings.json, outside the assumptions under which the contracts were written) -- {kf_txt}')
+            cov['known_findings_reproduced'] = known_hit
+        elif all_ok:
             cov['explanation'] = P.get('level_why', '') + f' -- deductive part: {n_ok}/{n_ob} obligations discharged; bounded part: see coverage.bounded'
         else:
             cov['explanation'] = ('not every obligation was discharged: ' +
